@@ -54,6 +54,12 @@ class KindExec:
         self.fn, self.kinds, self.qb_class, self.helpers = fn, kinds, qb_class, helpers or {}
         self.paths: List[list] = []
 
+    def _helper_fn(self, name, env):
+        v = env.get(name)
+        if isinstance(v, Abs) and v.kind == "closure":
+            return v.of
+        return self.helpers.get(name)
+
     def run(self):
         env = {}
         for p, k in self.kinds.items():
@@ -79,7 +85,9 @@ class KindExec:
         if isinstance(st, ast.Return):
             ev = list(ev)
             if st.value is not None:
-                self.val(st.value, env, ev)
+                r = self.val(st.value, env, ev)
+                if hasattr(self, "_ret_kinds"):
+                    self._ret_kinds.append(r.kind)
             self.paths.append(ev)
             return []
         if isinstance(st, ast.Raise):
@@ -114,6 +122,10 @@ class KindExec:
                 out.extend(self.block(st.body if truth else st.orelse, [(env, ev2)]))
             return out
         if isinstance(st, (ast.Pass, ast.Import, ast.ImportFrom)):
+            return [(env, ev)]
+        if isinstance(st, ast.FunctionDef):
+            env = dict(env)
+            env[st.name] = Abs("closure", st.name, of=st)
             return [(env, ev)]
         if isinstance(st, ast.For):
             ev = list(ev)
@@ -187,6 +199,12 @@ class KindExec:
                 if known or res:
                     return [(res, ev)]
             return [(True, list(ev)), (False, list(ev))]
+        if isinstance(e, ast.Call) and isinstance(e.func, ast.Name) and e.func.id != "is_scalar" and self._helper_fn(e.func.id, env) is not None:
+            hfn = self._helper_fn(e.func.id, env)
+            ps = positional_params(hfn)
+            if len(hfn.body) >= 1 and isinstance(hfn.body[-1], ast.Return) and all(isinstance(x, ast.Expr) and isinstance(x.value, ast.Constant) for x in hfn.body[:-1]) and len(ps) == len(e.args) and not e.keywords:
+                henv = dict(zip(ps, [self.val(a, env, ev) for a in e.args]))
+                return self.cond(hfn.body[-1].value, henv, ev)
         if isinstance(e, ast.Call) and isinstance(e.func, ast.Name) and e.func.id == "is_scalar" and len(e.args) == 1:
             v = self.val(e.args[0], env, ev)
             if v.kind in KINDS:
@@ -344,20 +362,26 @@ class KindExec:
                 return Abs("QB")
             if e.func.id in ("quantize_activation",):
                 return Abs("QB")
-            if e.func.id in self.helpers:
-                # inline a package helper by executing it with the argument abstractions
-                hfn = self.helpers[e.func.id]
+            hfn = self._helper_fn(e.func.id, env)
+            if hfn is not None:
+                # inline a package helper / local closure by executing it with the argument abstractions
                 ps = positional_params(hfn)
-                if len(ps) == len(args) and not e.keywords:
+                if len(ps) >= len(args):
                     sub = KindExec(hfn, {}, self.qb_class, self.helpers)
-                    henv = dict(zip(ps, args))
+                    henv = dict(env) if e.func.id in env else {}
+                    henv.update(zip(ps, args))
+                    for k in e.keywords:
+                        if k.arg:
+                            henv[k.arg] = self.val(k.value, env, [])
+                    sub._ret_kinds = []
                     for _, ev2 in sub.block(hfn.body, [(henv, [])]):
                         pass
                     for pth in sub.paths:
                         for x in pth:
-                            if x[0] in ("attr", "deq", "rawqx"):
+                            if x[0] in ("attr", "deq", "rawqx", "op", "qfallback", "torchcall"):
                                 ev.append(x)
-                    return Abs("opaque")
+                    rk = {k for k in sub._ret_kinds}
+                    return Abs(rk.pop()) if len(rk) == 1 else Abs("opaque")
         return Abs("opaque")
 
 
